@@ -171,6 +171,16 @@ class Ctx:
         if "VF-HANG idle=" in p.stdout:
             self.hang(test, p.stdout)
         if p.returncode != 0 and not allow_fail:
+            # the driver died.  A panic / fatal error whose innermost frame (in the stack of the goroutine that panicked) lies in
+            # the repository's own code is an observed behaviour no property allows; anything else is infrastructure
+            m = re.search(r"^(panic: .*|fatal error: .*)$", p.stdout, re.M)
+            site = panic_site(p.stdout, self.srcdir())
+            if m and site and site[2] and "VF-INFRA" not in p.stdout:
+                cp = os.path.join(self.scratch, "crash_%s.txt" % test)
+                with open(cp, "w") as fh:
+                    fh.write(p.stdout[-20000:])
+                self.violation("the code under test crashed while the driver %s exercised it: %s (%s:%s)" % (test, m.group(1)[:200], site[0], site[1]), files=[cp], tag="crash")
+                raise Hang()
             raise Infra("driver %s failed (rc=%d):\n%s" % (test, p.returncode, p.stdout[-6000:]))
         return p.returncode, p.stdout
 
